@@ -15,6 +15,7 @@ PROP = {
  'rule': 'Case = fastOpen x logger x 1-2 users x 1-3 proxied connections x 1-3 segments; per connection a list of clientWrite / '
          'targetWrite / sync / client-deadline ops (SetReadDeadline or SetDeadline in the past or 3 ms ahead, cleared after a Read timed out), '
          'with small QUIC flow-control windows (stream 16/64 KiB, connection 2x, both sides; a third of the cases default 8 MB) also: target stops taking bytes while the client Writes 5-8 windows under a write deadline 5 ms ahead, counts exactly the returned k as sent, clears the deadline and writes the rest from offset k; client pauses reading while the target writes 3-6 windows; '
+         'optionally a server-speaks-first target (a 1..40000-byte banner already readable on the dialled conn when Outbound.TCP returns, ~40 % of the relay connections, fast open on and off), '
          'optionally a slow dial (Outbound.TCP parked; with fast open a Read times out and a write happens before the response exists), '
          'an optional terminal event (client close, target close, target shutdown(WR), target read error after '
          'drain, target reset dropping queued bytes) with 0-2 writes of the other side racing it, or a dial failure with a 0..2048-byte '
